@@ -9,12 +9,14 @@ package main
 // ParseVCLOrSnippet on the main file (parse_error_main), linter.New(conf).Lint with a file
 // resolver (FatalError = parse error in an included module), l.Errors with rule and intrinsic
 // severity (overrides are applied by the runner, i.e. by the model).  A rule-less diagnostic has
-// the rule "-".
+// the rule "-".  Each diagnostic is printed as <rule>:<Severity as the linter prints it>:<base name of Token.File>.
 
 import (
 	"fmt"
+	"path/filepath"
 	"strings"
 
+	"github.com/ysugimoto/falco/v2/ast"
 	"github.com/ysugimoto/falco/v2/config"
 	"github.com/ysugimoto/falco/v2/lexer"
 	"github.com/ysugimoto/falco/v2/linter"
@@ -47,7 +49,21 @@ func lintIgnore(args string) string {
 	}
 	// scoped (Fastly managed) snippets: scoped:<scope>:<name>:<hex data>, embedded at the #FASTLY <scope> macro
 	var snippets *snippet.Snippets
+	mods := map[string]string{}
 	for _, a := range f[1:] {
+		if strings.HasPrefix(a, "mod:") {
+			// an include module: mod:<name>:<hex data>
+			p := strings.SplitN(a, ":", 3)
+			if len(p) != 3 {
+				return "badrequest"
+			}
+			data, err := unhx(p[2])
+			if err != nil {
+				return "badrequest"
+			}
+			mods[p[1]] = string(data)
+			continue
+		}
 		p := strings.SplitN(a, ":", 4)
 		if len(p) != 4 || p[0] != "scoped" {
 			return "badrequest"
@@ -66,7 +82,10 @@ func lintIgnore(args string) string {
 	if err != nil {
 		return "parseerr"
 	}
-	rslv := resolver.NewStaticResolver("main.vcl", string(src))
+	var rslv resolver.Resolver = resolver.NewStaticResolver("main.vcl", string(src))
+	if len(mods) > 0 {
+		rslv = &lintMapResolver{main: string(src), mods: mods}
+	}
 	opts := []lcontext.Option{lcontext.WithResolver(rslv)}
 	if snippets != nil {
 		opts = append(opts, lcontext.WithSnippets(snippets))
@@ -87,6 +106,24 @@ func lintIgnore(args string) string {
 	}
 	return strings.TrimSpace("ok " + strings.Join(out, " "))
 }
+
+// lintMapResolver resolves include "<name>"; from the modules given in the request
+type lintMapResolver struct {
+	main string
+	mods map[string]string
+}
+
+func (m *lintMapResolver) MainVCL() (*resolver.VCL, error) {
+	return &resolver.VCL{Name: "main.vcl", Data: m.main}, nil
+}
+func (m *lintMapResolver) Resolve(stmt *ast.IncludeStatement) (*resolver.VCL, error) {
+	if d, ok := m.mods[stmt.Module.Value]; ok {
+		return &resolver.VCL{Name: "mod::" + stmt.Module.Value, Data: d}, nil
+	}
+	return nil, fmt.Errorf("module %s not found", stmt.Module.Value)
+}
+func (m *lintMapResolver) Name() string           { return "" }
+func (m *lintMapResolver) IncludePaths() []string { return []string{} }
 
 func lintAPI(args string) string {
 	f := strings.Fields(args)
@@ -116,7 +153,7 @@ func lintAPI(args string) string {
 	}
 	out := []string{"in", "main=0", "inc=" + inc}
 	for _, e := range lt.Errors {
-		out = append(out, fmt.Sprintf("%s:%s", ruleName(e.Rule), e.Severity))
+		out = append(out, fmt.Sprintf("%s:%s:%s", ruleName(e.Rule), e.Severity, filepath.Base(e.Token.File)))
 	}
 	return strings.Join(out, " ")
 }
